@@ -176,6 +176,10 @@ func (ix *index) appendItems(items []item) {
 		}
 		done = append(done, logged)
 		ix.sum.Count("append")
+		if len(done) >= 1000 { // keep the events small enough for the validator's recursion depth
+			ix.tr.Emit(tl.M{"op": "append", "items": done, "st": ix.sess()})
+			done = []item{}
+		}
 	}
 	if len(done) > 0 {
 		ix.tr.Emit(tl.M{"op": "append", "items": done, "st": ix.sess()})
@@ -196,6 +200,10 @@ func (ix *index) pop(ids []uint64) {
 		}
 		done = append(done, id)
 		ix.sum.Count("pop")
+		if len(done) >= 1000 {
+			ix.tr.Emit(tl.M{"op": "pop", "ids": done, "st": ix.sess()})
+			done = []uint64{}
+		}
 	}
 	if len(done) > 0 {
 		ix.tr.Emit(tl.M{"op": "pop", "ids": done, "st": ix.sess()})
